@@ -321,6 +321,7 @@ class ObjCell:
     cls: str
     fields: dict             # attr -> Val
     owner: str = "local"
+    view: str | None = None  # name of the klass declaration (contract view) this object was created from
 
 
 @dataclass
